@@ -22,7 +22,7 @@ if (cd $wt/$mod && timeout 900 bash -c "$demo_cmd" >/tmp/seed/$id-out/verify$i.p
 # 3. existing tests pass with the patch (demo removed)
 rm -f $wt/$demo_path
 pkgs=${3:-./...}
-(cd $wt/$mod && go test -vet=off -count=1 -timeout 25m $pkgs >/tmp/seed/$id-out/verify$i.tests.log 2>&1) || { grep -E "^(--- FAIL|FAIL|panic)" /tmp/seed/$id-out/verify$i.tests.log | head; fail "existing tests fail with the patch (see verify$i.tests.log)"; }
+(cd $wt/$mod && go test -vet=off -count=1 -timeout 25m ${SKIP:+-skip "$SKIP"} $pkgs >/tmp/seed/$id-out/verify$i.tests.log 2>&1) || { grep -E "^(--- FAIL|FAIL|panic)" /tmp/seed/$id-out/verify$i.tests.log | head; fail "existing tests fail with the patch (see verify$i.tests.log)"; }
 clean
 dst=/verif/seeded/$id-$i
 mkdir -p $dst && cp $out/patch$i.diff $dst/patch.diff && cp $out/demo${i}_test.go $dst/demo_test.go && cp $meta $dst/meta.json
